@@ -554,7 +554,13 @@ impl Server {
             (Phase::ExpectCR, ClientMsg::ConnectionRequest { flags, protocols, .. }) => {
                 self.client_requested = *protocols;
                 self.client_req_flags = *flags;
-                let w = build::connection_confirm(&self.p, *protocols);
+                let w = if *flags & 1 != 0 && self.p.honour_restricted_admin {
+                    let mut p = self.p.clone();
+                    p.neg_flags |= 0x08;
+                    build::connection_confirm(&p, *protocols)
+                } else {
+                    build::connection_confirm(&self.p, *protocols)
+                };
                 self.queue("connection-confirm", &w);
                 if self.stopped {
                     return;
